@@ -55,9 +55,17 @@ impl_by_as_ref! {
     impl core::hash::Hash {
         #[inline] fn hash<H: core::hash::Hasher>(&Self, state: &mut H)
     }
-    #[cfg(feature = "std")]
-    impl std::io::Read {
-        #[inline] fn read(&mut Self, buf: &mut [u8]) -> std::io::Result<usize>
+}
+
+#[cfg(feature = "std")]
+impl std::io::Read for CowBytes<'_> {
+    /// Like `impl Read for &[u8]`: copy from the front and consume what was copied.
+    #[inline]
+    fn read(&mut self, buf: &mut [u8]) -> std::io::Result<usize> {
+        let n = self.len().min(buf.len());
+        buf[..n].copy_from_slice(&self.as_ref()[..n]);
+        self.advance(n);
+        Ok(n)
     }
 }
 
